@@ -171,4 +171,29 @@ example : table.length = 10 ∧ (table.map (·.1)).Nodup ∧ Fn.tan.smoothAt 0 :
   refine ⟨by decide, by decide, ?_⟩
   simp [Fn.smoothAt]
 
+/-- The ufunc operators on `ℝⁿ` (all `n`): for every branch of the extracted table, the
+point-wise operator `y ↦ (f (y k))_k` has, at every `x` whose entries are points of
+differentiability, the Fréchet derivative `d ↦ (f'(x k) · d k)_k` — which is what the
+returned `MultiplyOperator(<table expression at x>)` computes. -/
+theorem C06.ufunc_op_hasFDerivAt (n : Nat) :
+    ∀ p ∈ table, ∀ x : Fin n → ℝ, (∀ k, p.1.smoothAt (x k)) →
+      HasFDerivAt (fun (y : Fin n → ℝ) (k : Fin n) => p.1.real (y k))
+        (ContinuousLinearMap.pi fun k =>
+          (p.2.eval p.1 (x k)) • (ContinuousLinearMap.proj k : (Fin n → ℝ) →L[ℝ] ℝ)) x := by
+  intro p hp x hx
+  rw [hasFDerivAt_pi]
+  intro k
+  have h1 := C06.ufunc_table_sound p hp (x k) (hx k)
+  have h2 : HasFDerivAt (fun y : Fin n → ℝ => y k)
+      (ContinuousLinearMap.proj k : (Fin n → ℝ) →L[ℝ] ℝ) x :=
+    (ContinuousLinearMap.proj k : (Fin n → ℝ) →L[ℝ] ℝ).hasFDerivAt
+  exact h1.comp_hasFDerivAt x h2
+
+/-- The continuous linear map of `ufunc_op_hasFDerivAt` is the multiplication operator. -/
+example (n : Nat) (p : Fn × Expr) (x d : Fin n → ℝ) (k : Fin n) :
+    (ContinuousLinearMap.pi fun k =>
+          (p.2.eval p.1 (x k)) • (ContinuousLinearMap.proj k : (Fin n → ℝ) →L[ℝ] ℝ)) d k
+      = p.2.eval p.1 (x k) * d k := by
+  simp
+
 end ufunc
